@@ -339,6 +339,14 @@ def main():
                      (0, ("createdb", "DB2")), (0, ("createschema", "DB2", "S1")), (0, ("useschema", "DB2", "S1")), (0, ("current",)), (0, ("createtable", ["T"])),
                      (1, ("select", ["DB2", "S1", "T"], 0)), (0, ("select", ["S1", "T"], 2)), (2, ("select", ["S1", "T"], 0)),
                      (3, ("select", ["S1", "T"], 0)), (3, ("usedb", "DB2")), (3, ("select", ["S1", "T"], 0)), (3, ("useschema", None, "S1")), (3, ("select", ["T"], 0))])
+    # corpus: byte-identical statement texts repeated on one connection after its context changed in between
+    fixed_texts = {1: ["use schema s1", "create database db2", "create schema db2.s2", "create schema db2.s1", "use schema db2.s2", "use schema s1",
+                       "SELECT CURRENT_DATABASE(), CURRENT_SCHEMA()", "create table t9 (m varchar)", "SELECT m FROM t9", "SELECT m FROM DB2.S1.T9", "use schema db1.s2",
+                       "use schema s1", "SELECT CURRENT_DATABASE(), CURRENT_SCHEMA()", "SELECT m FROM t9", "create table t9 (m varchar)", "SELECT m FROM t9", "SELECT m FROM DB1.S1.T9"]}
+    hists.insert(1, [(0, ("useschema", None, "S1")), (1, ("createdb", "DB2")), (1, ("createschema", "DB2", "S2")), (1, ("createschema", "DB2", "S1")), (0, ("useschema", "DB2", "S2")),
+                     (0, ("useschema", None, "S1")), (0, ("current",)), (0, ("createtable", ["T9"])), (0, ("select", ["T9"], 0)), (1, ("select", ["DB2", "S1", "T9"], 0)),
+                     (0, ("useschema", "DB1", "S2")), (0, ("useschema", None, "S1")), (0, ("current",)), (0, ("select", ["T9"], 0)), (0, ("createtable", ["T9"])), (0, ("select", ["T9"], 0)),
+                     (1, ("select", ["DB1", "S1", "T9"], 0))])
     cases, impl = [], []
     reported = False
     for hi, h in enumerate(hists):
@@ -346,7 +354,7 @@ def main():
             h = hists[hi] = []
             world0, out, sqls = run_history(ck.rng, h, gen=ck.rng.randint(12, 30))
         else:
-            world0, out, sqls = run_history(ck.rng, h)
+            world0, out, sqls = run_history(ck.rng, h, texts=fixed_texts.get(hi))
         cases.append([world0[0], world0[1], [enc_op(c, op) for c, op in h]])
         impl.append((out, sqls))
         for (c, op), (res, _, _) in zip(h, out):
